@@ -180,6 +180,18 @@ pub struct VecCampaign {
     pub ops_total: u64,
 }
 
+/// C04/C16 domain: rollbacks are issued only from a committed state.
+fn in_rollback_domain(ops: &[VOp]) -> bool {
+    let mut committed = true;
+    for op in ops {
+        if matches!(op, VOp::Rollback | VOp::RollbackBefore(_) | VOp::Reimport) && !committed {
+            return false;
+        }
+        committed = matches!(op, VOp::Commit(_) | VOp::Rollback | VOp::RollbackBefore(_) | VOp::Reimport);
+    }
+    true
+}
+
 /// ddmin-style shrink of a failing history on one runner.
 pub fn shrink_vec(runner: Runner, cfg: &HistCfg, ops: &[VOp], sig: &str, max_runs: usize) -> Vec<VOp> {
     let mut cur = ops.to_vec();
@@ -193,6 +205,10 @@ pub fn shrink_vec(runner: Runner, cfg: &HistCfg, ops: &[VOp], sig: &str, max_run
             let mut cand = cur.clone();
             let end = (i + chunk).min(cand.len());
             cand.drain(i..end);
+            if cfg.rollback && !in_rollback_domain(&cand) {
+                i += chunk;
+                continue;
+            }
             runs += 1;
             let mut c = cfg.clone();
             c.fixed_ops = Some(cand.clone());
@@ -417,4 +433,59 @@ pub fn check_c04(ctx: &Ctx) -> i32 {
         "histories_per_vector_type": c.per_label.to_json(),
     });
     report.finish(ctx, "exploration", coverage, &["rollbacks only from committed states; no plain write()/flush() between commits (the statement's domain)"])
+}
+
+/// `--replay <file>`: re-runs the (shrunk) operation list of a replay file written by one of the
+/// vector checks on the same vector type and prints the outcome.
+pub fn replay_vec(ctx: &Ctx, base: HistCfg) -> i32 {
+    let path = ctx.replay.as_ref().unwrap();
+    let Ok(text) = std::fs::read_to_string(path) else {
+        eprintln!("cannot read {}", path.display());
+        return 2;
+    };
+    let Ok(v) = serde_json::from_str::<Value>(&text) else {
+        eprintln!("not JSON: {}", path.display());
+        return 2;
+    };
+    let d = &v["detail"];
+    let label = d["vector"].as_str().unwrap_or("");
+    let ops: Vec<VOp> = d["shrunk_ops"].as_array().map(|a| a.iter().filter_map(VOp::from_json).collect()).unwrap_or_default();
+    let Some((_, runner)) = runners().into_iter().find(|(n, r)| {
+        let mut rng = Rng::new(0);
+        let c = HistCfg { fixed_ops: Some(vec![]), ..HistCfg::default() };
+        *n == label || r(&mut rng, &c).label == label
+    }) else {
+        eprintln!("unknown vector type '{label}'");
+        return 2;
+    };
+    let cfg = HistCfg {
+        keep: d["keep"].as_u64().unwrap_or(0) as u16,
+        forced: d["forced_import"].as_bool().unwrap_or(false),
+        fixed_ops: Some(ops.clone()),
+        ..base
+    };
+    let mut rng = Rng::new(ctx.seed);
+    let o = runner(&mut rng, &cfg);
+    println!("replayed {} operations on {}: {}", o.ops.len(), o.label, vops_json(&o.ops));
+    match o.failed_at {
+        Some((at, m)) => {
+            println!("VIOLATION property={} replay={} sig={} :: at op {at}: {}", ctx.prop, path.display(), m.sig, m.what);
+            1
+        }
+        None => {
+            println!("OK replay passed (no mismatch)");
+            0
+        }
+    }
+}
+
+
+pub fn replay_cfg(prop: &str) -> HistCfg {
+    match prop {
+        "C04" | "C16" => HistCfg { rollback: true, ..HistCfg::default() },
+        "C07" => HistCfg { check_pages: true, ..HistCfg::default() },
+        "C08" => HistCfg { probe: Some(ProbeCfg { every: 1, pairs: 24, access: false, values: true }), ..HistCfg::default() },
+        "C20" => HistCfg { probe: Some(ProbeCfg { every: 1, pairs: 12, access: true, values: false }), ..HistCfg::default() },
+        _ => HistCfg::default(),
+    }
 }
